@@ -65,7 +65,69 @@ def subharnesses(tier):
                 }
                 subs.append(('%s-D%d-A%d-%s-down%d_up' % (topo, D, A, tag, j),
                              spec))
-    return subs + _loader_subs(tier)
+    return subs + _loader_subs(tier) + _spelling_subs(tier)
+
+
+DIGITS = '0123456789'
+SUFFIXES = ['K', 'M', 'G', 'T', 'KB', 'MB', 'GB', 'k', 'm', 'g']
+
+
+def _spelling_subs(tier):
+    subs = []
+    for suf in SUFFIXES:
+        subs.append(('spelling-%s' % suf, {'level': 'spelling', 'suffix': suf,
+                                           'maxdigits': 3 if tier == 'quick'
+                                           else 4}))
+    subs.append(('spelling-cpu', {'level': 'spelling', 'suffix': '%',
+                                  'maxdigits': 3 if tier == 'quick' else 4}))
+    return subs
+
+
+def _spelling_harness(S, spec):
+    """Capacities and demands mean the same quantity however they are
+    spelled: the real parsers on every digit string up to maxdigits (a word
+    built from solver choices, leading zeros and surrounding blanks
+    included) with every unit suffix."""
+    from treadmill import utils
+    from treadmill.scheduler import loader
+    n = 1 + S.choice('ndigits', spec['maxdigits'])
+    d = ''.join(DIGITS[S.choice('digit%d' % i, 10)] for i in range(n))
+    pad = ('', ' ')[S.choice('blank', 2)]
+    val = int(d)
+    suf = spec['suffix']
+    S.reach('parsed')
+    if suf == '%':
+        S.check('C01:cpu_percent_spelling_differs',
+                utils.cpu_units(pad + d + '%') == utils.cpu_units(d) == val,
+                {'digits': d})
+        a = loader.resources({'cpu': d + '%', 'memory': '1G', 'disk': '1G'})
+        b = loader.resources({'cpu': val, 'memory': '1024M',
+                              'disk': '1048576K'})
+        S.check('C01:resource_vector_depends_on_spelling', a == b,
+                {'a': a, 'b': b})
+        return
+    unit = 1000 if suf.upper().endswith('B') else 1024
+    power = {'K': 1, 'M': 2, 'G': 3, 'T': 4}[suf.upper()[0]]
+    nbytes = val * unit ** power
+    text = pad + d + suf + pad
+    S.check('C01:size_to_bytes_wrong', utils.size_to_bytes(text) == nbytes,
+            {'text': text})
+    S.check('C01:kilobytes_wrong', utils.kilobytes(text) == nbytes // 1024,
+            {'text': text})
+    S.check('C01:megabytes_wrong',
+            utils.megabytes(text) == nbytes // 1024 // 1024, {'text': text})
+    if suf.upper() == 'G':
+        S.check('C01:one_G_is_not_1024_M',
+                utils.megabytes(d + suf) == utils.megabytes(
+                    str(val * 1024) + 'M') == val * 1024, {'digits': d})
+    if suf.upper() == 'T':
+        S.check('C01:one_T_is_not_1024_G',
+                utils.megabytes(d + suf) == utils.megabytes(
+                    str(val * 1024) + 'G'), {'digits': d})
+    if suf.upper() == 'M':
+        S.check('C01:M_is_not_the_unit_of_the_resource_vector',
+                loader.resources({'memory': d + suf, 'disk': d + suf,
+                                  'cpu': '1%'})[0] == val, {'digits': d})
 
 
 def _loader_subs(tier):
@@ -120,6 +182,8 @@ def budget(tier, name):
 def harness(S, spec):
     if spec.get('level') == 'loader':
         return _loader_harness(S, spec)
+    if spec.get('level') == 'spelling':
+        return _spelling_harness(S, spec)
     W = g1.build(S, spec)
     g1.ri1(W, ':pre')
     before = g1.snapshot(W)
@@ -150,5 +214,5 @@ META = {
         'Cell.add_app', 'Cell.remove_app', 'SpreadStrategy',
         'PlacementFeasibilityTracker'],
     'reach_required': ['scheduled', 'eviction_put', 'restored_after_eviction',
-                       'server_record_edited'],
+                       'server_record_edited', 'parsed'],
 }
